@@ -118,6 +118,7 @@ type Cluster struct {
 
 	Script []Action
 
+	Extra        []Violation // violations found by property hooks (epilogue checks)
 	shutdownDone bool
 	// Hang is set when the case could not be shut down (a Stop() that never returns, ...)
 	Hang string
@@ -131,6 +132,43 @@ type Cluster struct {
 func (c *Cluster) Net() *Network   { return c.net }
 func (c *Cluster) Rec() *Recorder  { return c.rec }
 func (c *Cluster) Now() time.Duration { return time.Since(c.start) }
+
+// AddViolation lets a property hook report a violation of its own.
+func (c *Cluster) AddViolation(v Violation) {
+	c.mu.Lock()
+	c.Extra = append(c.Extra, v)
+	c.mu.Unlock()
+}
+
+// FSMLedger returns the applied operations of the node's current state machine.
+func (c *Cluster) FSMLedger(id string) []LedgerItem {
+	n := c.Nodes[id]
+	if n == nil || n.cur == nil {
+		return nil
+	}
+	return n.cur.fsm.Ledger()
+}
+
+// SubmitWait submits a write and waits (in virtual time) for its outcome.
+func (c *Cluster) SubmitWait(target string, timeout time.Duration) (ok bool, index uint64, outcome string) {
+	n := c.Nodes[target]
+	if n == nil || !n.Running() {
+		return false, 0, "notrunning"
+	}
+	before := c.rec.Len()
+	c.Submit(7, target, "write", timeout)
+	deadline := c.Now() + timeout + 10*time.Millisecond
+	for c.Now() < deadline {
+		c.Advance(5 * time.Millisecond)
+		h := c.rec.Since(before)
+		for i := 0; i < len(h); i++ {
+			if h[i].Kind == "return" && h[i].Client.Client == 7 && h[i].Client.Target == target {
+				return h[i].Client.Outcome == "ok", h[i].Client.Index, h[i].Client.Outcome
+			}
+		}
+	}
+	return false, 0, "noreturn"
+}
 
 func (c *Cluster) Label(l string) {
 	c.mu.Lock()
